@@ -48,6 +48,10 @@ pub enum Action {
     Settle,
     /// prefix-only: process every pending Ready (and persistence) of one node
     Settle0(u8),
+    /// LEASE: tick every node of the lock-step majority once
+    LockTick,
+    /// LEASE: deliver all traffic inside the lock-step majority to quiescence
+    LockDeliver,
     /// prefix-only: drop every in-flight message addressed to / sent by this node
     Isolate(u8),
     /// prefix-only: drop all in-flight messages
@@ -187,7 +191,8 @@ pub struct Scenario {
     /// evaluate has_ready vs ready() on clones and offer bad messages on clones
     pub clone_checks: bool,
     pub group_commit: bool,
-    /// lock-step majority for LEASE: these nodes are driven by the `Lockstep` macro only
+    /// LEASE: these nodes (leader first) run in lock-step (LockTick / LockDeliver only)
+    pub lock_majority: Vec<u8>,
     pub note: String,
 }
 
@@ -216,6 +221,7 @@ impl Scenario {
             max_link: 8,
             clone_checks: false,
             group_commit: false,
+            lock_majority: vec![],
             note: String::new(),
         }
     }
